@@ -171,6 +171,9 @@ def run_xo(name, tier, res, seed):
             """fresh originals + unpickled copies, then replay writes [(side, k, path, value)]"""
             del vals[:]
             objs = make_group(group, make, make_at)
+            for o_ in objs:  # handles that have been used (read in full, structure walked) are what gets pickled
+                xt.read(t, o_)
+                hand.snap(t, o_)
             new = pickle.loads(pickle.dumps(objs, protocol=proto))
             mo, mn = list(vals), list(vals)
             for side, k, path, val in writes:
